@@ -45,7 +45,7 @@ def _client(args):
                 d["cipher"] != c or d["mac"] != m or d["auth_uid"] != uid or d["ttl"] != (ttl or 300):
             problems.append("client %d (uid %d) got a reply that is not its own: error %d uid %d gid %d cipher %d len %d payload-head %r"
                             % (idx, uid, d["error_num"], d["cred_uid"], d["cred_gid"], d["cipher"], d["data_len"], d["data"][:24]))
-        if idx % 12 == 0 and r % 2 == 0:
+        if idx % 12 == 0 and idx < 40 and r % 2 == 0:
             # this client's user is listed in group 700 by EVERY version of the group database that the SIGHUP loop writes,
             # so a credential restricted to GID 700 is his whatever refresh of the group map is in progress
             e7, st = rig.encode(sock, uid=uid, gid=gid, auth_gid=700, data=payload)
